@@ -242,9 +242,9 @@ PROPS["C09"] = {
 }
 
 PROPS["C10"] = {
-    "rules": [rules_attr.rule_hdirty, rules_attr.rule_grattr, (lambda ctx: rules_dd.rule_F3c(ctx, {"vgroup_desc", "vdata_desc"})), _layouts("VG", "VH")],
+    "rules": [rules_attr.rule_hdirty, rules_attr.rule_grattr, rules_attr.rule_grattr_link, (lambda ctx: rules_dd.rule_F3c(ctx, {"vgroup_desc", "vdata_desc"})), _layouts("VG", "VH")],
     "level": "other",
-    "explanation": "Decides the persistence clause of 'attributes are returned as last set' per interface: (HDIRTY) SD: every non-failing path of a public SD function on which SDIputattr -- the one routine that puts or replaces an attribute-list entry -- succeeded also sets NC_HDIRTY on the file handle (otherwise SDend does not rewrite the header and the attribute is lost); (GRATTR) GR: every non-failing path that marks an attribute's cached value changed or inserts an attribute node also sets the owner's attr_modified/gattr_modified flag (directly or through the update_flag pointer loaded with its address); (F3c) Vgroup/Vdata: every store to a persisted field of the in-memory record -- the attribute list and count included -- comes with `marked`; (F1) the VG and VH records, which carry the attribute lists, are written and read as the frozen format table says. Not decided: the values returned, index stability on replace, the type/count-change refusal, name/index/ref bijections.",
+    "explanation": "Decides the persistence clause of 'attributes are returned as last set' per interface: (HDIRTY) SD: every non-failing path of a public SD function on which SDIputattr -- the one routine that puts or replaces an attribute-list entry -- succeeded also sets NC_HDIRTY on the file handle (otherwise SDend does not rewrite the header and the attribute is lost); (GRATTR) GR: every non-failing path that marks an attribute's cached value changed or inserts an attribute node also sets the owner's attr_modified/gattr_modified flag (directly or through the update_flag pointer loaded with its address); (GRLINK) GRend links every attribute created in the session into its Vgroup independently of whether its data is still pending; (F3c) Vgroup/Vdata: every store to a persisted field of the in-memory record -- the attribute list and count included -- comes with `marked`; (F1) the VG and VH records, which carry the attribute lists, are written and read as the frozen format table says. Not decided: the values returned, index stability on replace, the type/count-change refusal, name/index/ref bijections.",
     "rule_text": "instances = SDIputattr call sites per SD function (15), attribute changes in the GR interface, functions storing into persisted Vgroup/Vdata fields, layout rows of VG/VH",
     "trusted": [CLANG, CDB, "the frozen VG/VH layouts"],
     "assumptions": ["SDIputattr is the only writer of SD attribute lists from the SD interface (NC_aput of the nc interface is not covered)"],
